@@ -28,7 +28,7 @@ CHECKS.update({
    note="a following key arriving within a few ms (number of events in flight + 3) of the expiry instant is counted but not judged (time is counted when events are processed)."),
  "C07": dict(cat="exploration", ref="D5 C07", tech="deterministic simulation, differential: ticking run vs idle-blocking run of the same seeded history on fresh instances",
    text="For generated configurations with all time-dependent features and histories with gaps up to 70 s, two executions (never skip vs skip whenever the real can-block decision is true) must produce identical output traces with time measured relative to the preceding input, and the ticking run must output nothing between a true can-block decision and the next input.",
-   note="part 1 (stepper) only so far; the real threaded loop (part 2) is exercised by the executor-B population when present."),
+   note="part 2 ('loop' population, ~15% of the runs) runs the real start_processing_loop thread, an input feeder and a TCP-client task as real threads under the seeded baton scheduler of rt with a virtual clock (executor B): in strict mode (no jitter, ties feeder-first) the loop's output must equal the stepper's idle-blocking run tick for tick (this is what validates executor A's loop protocol; it corrected the stepper twice and found an off-by-one in kanata); with per-step costs, sleep overshoot and injected stalls of 2-40 ms the loop must terminate, nobody may deadlock or panic and nothing may stay down. The zippychord contingency-reset divergence is a known finding (probe H2)."),
  "C17": dict(cat="exploration", ref="D5 C17", tech="deterministic simulation over tap schedules at the timeout boundary with a reference segmentation function",
    text="Lazy and eager tap-dance with 1-4 marker actions, T in {2,5,20,200}; 1-6 taps with press-to-press gaps from {T-1,T,T+1,...}, optionally interrupted by another key, last tap optionally held. A reference function segments taps into dances (gap < T, list exhausted, other key) and predicts the exact sequence of actions; the chosen action must stay pressed until the final release.",
    note="gaps in [T, T+3+rapid-event-delay] accept both outcomes (queue latency of the press that starts the next dance), everything else is exact."),
@@ -52,7 +52,7 @@ CHECKS.update({
    note="macros, sequences, caps-word and dynamic macros are outside the fragment; the allow-hardware-repeat gate (event_loop) is modelled by the feeder; two genuine defect classes (repeat chosen from kanata's internal list rather than OS state with unmod/overrides; modifier repeated instead of chord key) are known findings."),
  "C18": dict(cat="exploration", ref="D5 C18", tech="deterministic simulation of virtual-key operations (press/release/tap/toggle, hold-for-duration, on-idle) at timer boundaries with a reference state model",
    text="Virtual-key operations from every trigger form are compared with a boolean reference state per virtual key; hold-for-duration and on-idle timers are checked at their exact ticks.",
-   note="TCP-style operations are applied between ticks on the single-thread stepper; interleavings with the real TCP server thread are not explored here."),
+   note="the 'tcp-race' population (~6% of the runs, executor B) operates the virtual keys from a TCP-client task racing with the real processing-loop thread and a typing feeder under seeded interleavings, step costs and 2-40 ms stalls: per virtual key the OS transitions and the final state must agree with the sequential model of the client's operations, and the loop must terminate. Elsewhere TCP-style operations are applied between ticks on the stepper."),
  "C19": dict(cat="exploration", ref="D5 C19", tech="deterministic simulation of dynamic-macro record/play with reconstruction oracle (recorded items vs replayed trace), seeded histories incl. nested play and limits",
    text="What is fed back during replay is reconstructed from the typed history (identity population) or compared differentially with a fresh instance typed live (remap population); self-play and length limits must terminate with nothing stuck.",
    note="the one-event lag between a physical input and its recorded item is treated as convention; replay timing is compared up to queue latency."),
